@@ -31,7 +31,7 @@ var purePrefixes = []string{
 	"crypto/sha256.", "(hash.", "(*crypto/sha256.", "golang.org/x/crypto/blake2b.", "encoding/json.Marshal", "(net/http.Header)", "net/http.Error",
 	"(*sync.WaitGroup)", "(*sync/atomic.", "sync/atomic.", "(google.golang.org/grpc/", "google.golang.org/grpc/status.", "google.golang.org/grpc/codes.", "google.golang.org/grpc/peer.", "google.golang.org/grpc/metadata.",
 	"(*google.golang.org/protobuf/types/known/timestamppb.Timestamp).AsTime", "google.golang.org/protobuf/types/known/timestamppb.",
-	"(*" + modPath + "/protobuf/", "os.Getenv", "(*math/big.",
+	"os.Getenv", "(*math/big.",
 }
 
 func (e *Engine) isPure(key string) bool {
@@ -85,7 +85,13 @@ func (e *Engine) callEffect(cc *ssa.CallCommon) effect {
 		case "builtin:append":
 			return effect{kind: "keys", keys: []string{"E:Int", "E:Bool", "E:Str", "E:Bytes", "E:Slice", "E:Iface", "E:Real"}}
 		case "builtin:delete":
-			return effect{kind: "keys", keys: []string{"MD:Int", "MD:Str", "ML"}}
+			if len(cc.Args) > 0 {
+				if _, ok := cc.Args[0].Type().Underlying().(*types.Map); ok {
+					dk, _, _, _, lk, _, _ := mapHeap(cc.Args[0].Type())
+					return effect{kind: "keys", keys: []string{dk, lk}}
+				}
+			}
+			return effect{kind: "all"}
 		case "builtin:copy", "builtin:clear":
 			return effect{kind: "all"}
 		}
@@ -312,6 +318,11 @@ func (vf *VerifyFunc) doCall(st *State, fr *Frame, in ssa.Instruction, cc *ssa.C
 		after(r, nil)
 		return r, false
 	}
+	if static != nil && static.Pkg != nil && strings.HasPrefix(static.Pkg.Pkg.Path(), modPath+"/protobuf/") && len(static.Blocks) == 0 {
+		r := mkres() // generated protobuf accessor without a body in this load: no effect on modelled state
+		after(r, nil)
+		return r, false
+	}
 	// inline small repo functions without contracts
 	if static != nil && eng.inlinable(static, len(st.frames)) && !vf.onStack(st, static) {
 		nf := &Frame{fn: static, regs: map[ssa.Value]*Val{}, vars: map[string]*Val{}, block: static.Blocks[0], inlined: true}
@@ -471,6 +482,21 @@ func (vf *VerifyFunc) havocLoc(st *State, fc *FuncContract, m ModLoc, env map[st
 				return
 			}
 		}
+		if x.Fun == "mapof" && len(x.Args) == 1 {
+			ev := &evaluator{st: st, vf: vf, env: env, pkgPath: fc.PkgPath}
+			r := ev.eval(x.Args[0])
+			if r != nil && r.T != nil {
+				if _, isMap := r.T.Underlying().(*types.Map); isMap {
+					dk, das, vk, vas, lk, ks, vs := mapHeap(r.T)
+					st.heapSet(dk, das, store(st.heapGet(dk, das), r.Tm, st.fresh("moddom", "(Array "+ks+" Bool)")))
+					st.heapSet(vk, vas, store(st.heapGet(vk, vas), r.Tm, st.fresh("modval", "(Array "+ks+" "+vs+")")))
+					nl := st.fresh("modlen", SInt)
+					st.assume("(>= " + nl + " 0)")
+					st.heapSet(lk, "(Array Int Int)", store(st.heapGet(lk, "(Array Int Int)"), r.Tm, nl))
+					return
+				}
+			}
+		}
 		if x.Fun == "elems" && len(x.Args) == 1 {
 			ev := &evaluator{st: st, vf: vf, env: env, pkgPath: fc.PkgPath}
 			r := ev.eval(x.Args[0])
@@ -518,7 +544,8 @@ func (vf *VerifyFunc) builtin(st *State, fr *Frame, in ssa.Instruction, name str
 		case SInt:
 			switch a.T.Underlying().(type) {
 			case *types.Map:
-				l := sel(st.heapGet("ML", "(Array Int Int)"), a.Tm)
+				_, _, _, _, lk, _, _ := mapHeap(a.T)
+				l := sel(st.heapGet(lk, "(Array Int Int)"), a.Tm)
 				st.assume("(>= " + l + " 0)")
 				return intVal(ite(eq(a.Tm, "0"), "0", l))
 			case *types.Chan:
@@ -582,7 +609,7 @@ func (vf *VerifyFunc) builtin(st *State, fr *Frame, in ssa.Instruction, name str
 		mt := m.T.Underlying().(*types.Map)
 		ks := sortOf(mt.Key())
 		if ks != "" {
-			st.mapDelete(m.Tm, ks, st.coerce(k, mt.Key()).Tm)
+			st.mapDelete(m.T, m.Tm, st.coerce(k, mt.Key()).Tm)
 		}
 		return nil
 	case "close":
@@ -729,6 +756,20 @@ func (vf *VerifyFunc) special(st *State, fr *Frame, in ssa.Instruction, key stri
 		}
 		st.assume("(forall ((x Iface)) (! (= (wraps " + r.Tm + " x) " + or(alts...) + ") :pattern ((wraps " + r.Tm + " x))))")
 		return r, true
+	case "fmt.Sprintf":
+		if c, ok := cc.Args[0].(*ssa.Const); ok && c.Value != nil && len(args) >= 2 && args[1].S == SSlice {
+			format := constString(c)
+			if _, has := vf.eng.cs.Ghosts["hexOf"]; has && format == "%x" {
+				h := st.heapGet("E:Iface", heapSortFor("E:Iface", SIface))
+				elem := sel(sel(h, "(s_base "+args[1].Tm+")"), "(s_off "+args[1].Tm+")")
+				// fmt %x of a byte slice: lower-case hex of its content (assumed; hexOf is injective on content)
+				isBytes := or(eq("(i_tag "+elem+")", fmt.Sprint(vf.eng.typeTag(types.NewSlice(types.Universe.Lookup("byte").Type())))), eq("(i_tag "+elem+")", fmt.Sprint(vf.eng.typeTag(types.NewSlice(types.Typ[types.Uint8])))))
+				r := st.freshVal(types.Typ[types.String], "sprintf")
+				st.assume(implies(isBytes, eq(r.Tm, "(g_hexOf (unbox_Bytes (i_val "+elem+")))")))
+				return r, true
+			}
+		}
+		return nil, false
 	case "math.Floor":
 		return &Val{T: types.Typ[types.Float64], S: SReal, Tm: "(to_real (to_int " + args[0].Tm + "))"}, true
 	case "(time.Duration).Seconds":
